@@ -223,7 +223,8 @@ CHECKS["C19"] = dict(
          "Traces are attributed through a unique style colour per object; decorations are switched off via their style flags.")
 ADD = {
     "C01": "Every source is additionally evaluated in one call together with a stretched companion body of its class, in both orders (judged where the source alone is right).",
-    "C02": "Attribute forms include later in-place mutation of the caller's array; bodies are also evaluated in batches of 2-3 (same / other local mesh, hollow ring, tetrahedron; list and Collection) with observers inside exactly one body.",
+    "C13": "Menu entries for a mesh repaired by reorient_faces() after a first evaluation and for micrometre / millimetre bodies with non-round coordinates through every converter.",
+    "C02": "The on-surface rows are evaluated again without the ordinary rows and singly (every row takes a special-case branch); Tetrahedron in both chiralities. Attribute forms include later in-place mutation of the caller's array; bodies are also evaluated in batches of 2-3 (same / other local mesh, hollow ring, tetrahedron; list and Collection) with observers inside exactly one body.",
     "C03": "Sensor observers (static, +a/-a wobble, rotating, micro-tilt paths; off-origin pixels) are moved through the API by the same words as the source: every reading must stay unchanged.",
     "C04": "Path-length combinations include sensor paths strictly between 1 and the longest path of the call and sensors of unequal path lengths.",
     "C05": "The leaf cycle contains two CustomSources with different field functions and two TriangularMeshes sharing the identical local mesh (different polarizations) that contain the observer.",
